@@ -57,7 +57,10 @@ def corruptions(v, p, version, name):
         out += [("no-separator", t + "-" + V4), ("non-hex", t + "--" + V4[:-1] + "g"), ("uppercase-hex", t + "--" + V4.upper()), ("nil-uuid", t + "--" + NIL), ("uuid-v1", t + "--" + V1),
                 ("extra-suffix", t + "--" + V4 + "x"), ("urn-form", t + "--urn:uuid:" + V4), ("braces", t + "--{" + V4 + "}"), ("no-hyphens", t + "--" + V4.replace("-", "")),
                 ("empty-type", "--" + V4), ("type-only", t), ("double-separator", t + "----" + V4), ("infix-before-uuid", t + "--x--" + V4), ("two-uuids", t + "--" + V4 + "--" + V4),
-                ("type-twice", t + "--" + t + "--" + V4), ("ncs-variant", t + "--3f7f0c5f-5d54-4292-14ea-ec1e1952be01"), ("uppercase-type", t.upper() + "--" + V4)]
+                ("type-twice", t + "--" + t + "--" + V4), ("ncs-variant", t + "--3f7f0c5f-5d54-4292-14ea-ec1e1952be01"), ("uppercase-type", t.upper() + "--" + V4),
+                # digits that are not ASCII digits (the same numeric value): full-width, Arabic-Indic, mathematical bold
+                ("fullwidth-digit", t + "--" + V4.replace("3", "\uff13", 1)), ("arabic-indic-digit", t + "--" + V4.replace("5", "\u0665", 1)),
+                ("math-bold-digit", t + "--" + V4[:-1] + "\U0001d7ce" if V4.endswith("0") else t + "--" + V4.replace("4", "\U0001d7d2", 1))]
     if k == "id":
         out.append(("wrong-type-prefix", "tool--" + V4 if not str(v).startswith("tool--") else "identity--" + V4))
     if k == "ref":
@@ -70,7 +73,10 @@ def corruptions(v, p, version, name):
         out.append(("unknown-type", "x-unknown--" + V4))
     if k == "list":
         out += [("empty-list", []), ("scalar-instead-of-list", v[0] if isinstance(v, list) and v else "s"), ("list-with-null", (list(v) if isinstance(v, list) else []) + [None]),
-                ("nested-list", [v] if isinstance(v, list) else [["s"]])]
+                ("nested-list", [v] if isinstance(v, list) else [["s"]]),
+                # one-shot iterables: truthy objects that yield nothing, and (control) one that yields the valid elements
+                ("lazy-empty:generator", Lazy("generator")), ("lazy-empty:iter", Lazy("iter")), ("lazy-empty:filter", Lazy("filter")), ("lazy-empty:map", Lazy("map")),
+                ("lazy-empty:dict-keys", Lazy("dict-keys")), ("lazy-valid:generator", Lazy("generator", v if isinstance(v, list) else []))]
     if k in ("dictionary", "hashes"):
         first = dict(v) if isinstance(v, dict) else {}
         val = next(iter(first.values()), "v")
@@ -188,6 +194,37 @@ def object_level(j, version, key):
     return out
 
 
+class Lazy(object):
+    """stands for a one-shot iterable handed over where a list is usual (made afresh for every attempt)"""
+
+    def __init__(self, kind, items=()):
+        self.kind, self.items = kind, list(items)
+
+    def make(self):
+        items = copy.deepcopy(self.items)
+        if self.kind == "generator":
+            return (x for x in items)
+        if self.kind == "iter":
+            return iter(items)
+        if self.kind == "filter":
+            return filter(lambda x: True, items)
+        if self.kind == "map":
+            return map(lambda x: x, items)
+        if self.kind == "dict-keys":
+            return dict.fromkeys(range(len(items))).keys() if not items else {json.dumps(x): 1 for x in items}.keys()
+        raise ValueError(self.kind)
+
+
+def materialize(x):
+    if isinstance(x, Lazy):
+        return x.make()
+    if isinstance(x, dict):
+        return {k: materialize(v) for k, v in x.items()}
+    if isinstance(x, list):
+        return [materialize(v) for v in x]
+    return x
+
+
 def json_safe(x):
     """values json.dumps can carry (NaN/inf are carried as Python's non-standard tokens, 10**400 as digits)"""
     return x
@@ -236,7 +273,7 @@ def attempt(part, j, version, case, feat, forms):
         c = dict(case, form=form)
         try:
             if form == "parse(dict)":
-                obj = stix2.parse(copy.deepcopy(j), allow_custom=False)
+                obj = stix2.parse(materialize(copy.deepcopy(j)), allow_custom=False)
             elif form == "parse(text)":
                 obj = stix2.parse(json.dumps(j), allow_custom=False)
             else:
@@ -244,7 +281,7 @@ def attempt(part, j, version, case, feat, forms):
                 if cls is None:
                     part.outcome("no-constructor")
                     continue
-                obj = cls(**copy.deepcopy(j))
+                obj = cls(**materialize(copy.deepcopy(j)))
         except Exception as e:
             part.outcome("refused")
             continue
@@ -253,6 +290,28 @@ def attempt(part, j, version, case, feat, forms):
             part.violation("C02/strict-parse-returns-dict/%s" % feat, "strict parse returned an unvalidated dict", c, "refused or object", sorted(obj)[:8])
             continue
         check_result(part, obj, version, c, feat)
+    if feat.startswith(("ref/", "list<ref>/", "id/")) and "constructor" in forms:
+        # HISTORY: the same content first goes through the LENIENT entries (allow_custom=True parse and constructor, a memory store with its default), then the strict
+        # constructor / parse again: what the lenient calls admitted must not have softened the strict ones
+        cls = stix2.registry.class_for_type(j.get("type"), version) if isinstance(j.get("type"), str) else None
+        for lenient in (lambda: stix2.parse(materialize(copy.deepcopy(j)), allow_custom=True), lambda: cls(allow_custom=True, **materialize(copy.deepcopy(j))) if cls else None,
+                        lambda: stix2.MemoryStore().add(materialize(copy.deepcopy(j)))):
+            try:
+                lenient()
+            except Exception:
+                pass
+        for form in ("parse(dict)", "constructor"):
+            if form == "constructor" and cls is None:
+                continue
+            part.evaluations += 1
+            part.transitions += 4
+            try:
+                obj = stix2.parse(materialize(copy.deepcopy(j)), allow_custom=False) if form == "parse(dict)" else cls(**materialize(copy.deepcopy(j)))
+            except Exception:
+                part.outcome("refused")
+                continue
+            if not isinstance(obj, dict):
+                check_result(part, obj, version, dict(case, form=form + " after lenient use of the same content"), feat + "/after-lenient-use")
 
 
 def prebuilt_subobjects(part, base, version, tkey, case):
@@ -458,7 +517,7 @@ def run_case(case, part):
                 c = dict(case, slot=list(path), corruption=clabel)
                 if extra is not None:
                     c["extra"] = extra[0]
-                fm = forms if not (isinstance(cv, float) and (math.isnan(cv) or math.isinf(cv))) and not (isinstance(cv, int) and abs(cv) > 10 ** 300) else ["parse(dict)", "constructor"]
+                fm = forms if not (isinstance(cv, float) and (math.isnan(cv) or math.isinf(cv))) and not (isinstance(cv, int) and abs(cv) > 10 ** 300) and not isinstance(cv, Lazy) else ["parse(dict)", "constructor"]
                 attempt(part, j, version, c, feature(version, kind, clabel, pname), fm if not path[:1] == ("type",) else ["parse(dict)", "parse(text)"])
         if only is None and extra is None and not loc:
             prebuilt_subobjects(part, base, version, tkey, case)
